@@ -3,6 +3,7 @@
 from __future__ import annotations
 
 import math
+from fractions import Fraction
 
 import numpy as np
 
@@ -123,6 +124,13 @@ def explore(item, ctx, seed, easy_menu, clauses, quarter=True):
                 for how_, d_ in derived_objects(s, seed, with_swap=False):
                     objs.append((how_, d_, sorted(np.asarray(d_.pos, dtype=float).tolist()),
                                  sorted(np.asarray(d_.neg, dtype=float).tolist()), int(d_.nb_easy_pos), int(d_.nb_easy_neg)))
+            if item["grid"] in ("uint", "mixed_narrow") and (ep, en) == easy_menu[0]:
+                # a subclass object holding the same scores, built from the unsorted arrays of the same dtypes
+                from mc.derived import group_twin
+
+                ok3, g3 = guarded(ctx, "construct-group-twin", base_case, group_twin, s)
+                if ok3:
+                    objs.append(("GroupScores twin (unsorted input, same dtype)", g3, pos, neg, 0, 0))
             for how, s, pos, neg, ep, en in objs:
                 base_case = dict(base_case, object=how, pos=pos, neg=neg, easy=[ep, en])
                 ctx.state()
@@ -236,14 +244,17 @@ def explore(item, ctx, seed, easy_menu, clauses, quarter=True):
                                          expected="lower <= linear <= higher (4 ulp)",
                                          snippet=snippet(pos, neg, cfg, ep, en, metric, r, "linear"))
                             # convex combination weighted by frac(r*N)
-                            x = r * N
-                            f = x - math.floor(x)
+                            # frac(r*N) from exact rational arithmetic on the float r; the implementation's own
+                            # floating-point index carries a rounding error of a few ulps of N, nothing more
+                            xq = Fraction(r) * N
+                            f = float(xq - math.floor(xq))
+                            win = 64 * (math.nextafter(float(max(N, 1)), math.inf) - float(max(N, 1)))
                             cands = []
-                            if f < 1e-9 or f > 1 - 1e-9:
-                                cands = [tl, th]  # on the grid: either neighbour pair may have been chosen
+                            if f < win or f > 1 - win:
+                                cands = [tl, th]  # on the grid (to rounding): either neighbour pair may have been chosen
                             else:
                                 cands = [(1 - f) * tl + f * th]
-                            tolc = tol_t + 1e-9 * abs(th - tl)
+                            tolc = tol_t + win * abs(th - tl)
                             if not any(abs(tlin - c) <= tolc for c in cands):
                                 ctx.fail("linear-is-convex-combination", case,
                                          observed={"linear": tlin, "lower": tl, "higher": th, "frac": f},
